@@ -42,3 +42,9 @@ End Sched.
 Definition permute_schedule (dims : list nat) : option (list nat * list nat) :=
   let d := length dims in
   bloop (fun x => index_of x dims) (d * d + 1) (seq 0 d) [].
+
+(* ---- to_qtt on TT tensors with mode_size 2 (torchtt/_tt_base.py): a core whose mode is 2^k with k > 1 is split into k cores of mode 2;
+   a core with int(log2 n) <= 1 (n = 1, 2, 3) is kept as it is.  Nat.log2 is the integer part of the logarithm, as int(math.log(n, 2))
+   is for the sizes in range (checked by the correspondence). ---- *)
+Definition qtt_modes (ns : list nat) : list nat :=
+  flat_map (fun n => if Nat.ltb 1 (Nat.log2 n) then repeat 2 (Nat.log2 n) else [n]) ns.
